@@ -92,6 +92,18 @@ def main(n, seed):
                     pass
                 except Exception as e:  # noqa: BLE001
                     problem = f"merge(): {type(e).__name__} escapes instead of a merge error"
+                if problem is None and ta is not None:
+                    # the ancestor listing is not in the store (an older revision, not fetched): whatever merge() does about that,
+                    # it must not hand back a listing other than the three-way merge (e.g. one that resurrects a removed entry)
+                    ap = odb.oid_to_path(ta.hash_info.value)
+                    if os.path.exists(ap):
+                        os.chmod(ap, 0o644); os.unlink(ap)  # noqa: E702
+                    try:
+                        got = merge(odb, ta.hash_info, to.hash_info, tt.hash_info, allowed=allowed)
+                        if exp_h is None or {k: h.value for k, m, h in got} != exp_h:
+                            problem = "merge() with the ancestor listing missing from the store returned a listing that is not the three-way merge"
+                    except Exception:  # noqa: BLE001,S110  (refusing is fine)
+                        pass
                 if problem:
                     fails.append({"allowed": allowed, "ancestor": sorted(map(str, anc)), "ours": {str(k): str(v[1].value)[:1] + ("x" if v[0].isexec else "") for k, v in ours.items()},
                                   "theirs": {str(k): str(v[1].value)[:1] + ("x" if v[0].isexec else "") for k, v in theirs.items()}, "problem": problem} if len(fails) < 5 else None)
@@ -127,7 +139,7 @@ def main(n, seed):
                 fails.append(None)
     nf = len(fails)
     return {"evaluations": evals, "distinct_nontrivial": evals, "failures": [f for f in fails if f][:3], "n_failures": nf,
-            "exhaustive_within_bound": not (n and n < len(dicts) ** 3), "bound": "3-key universe (incl. a nested key), values {absent, v1, v2, v1-with-other-metadata}, 4 policies"}
+            "exhaustive_within_bound": not (n and n < len(dicts) ** 3), "bound": "3-key universe (incl. a nested key), values {absent, v1, v2, v1-with-other-metadata}, 4 policies; merge() through a store on every 40th triple, also with the ancestor listing missing from the store"}
 
 
 if __name__ == "__main__":
